@@ -149,8 +149,10 @@ TStartBegin ==
   /\ IF "Start" \in Strict
      THEN StartLoad
      ELSE /\ up = "down" /\ up' = "catchup"
+          \* the authorized-server list and the migration orders are not persisted: a start begins without them
+          /\ servers' = <<>> /\ migr' = EmptyFn
           /\ UNCHANGED <<now, gca, equip, pkidx, bans, offset, live, impact,
-                         archive, servers, migr, disk, seen>>
+                         archive, disk, seen>>
   /\ rot' = "idle" /\ pend' = [pend EXCEPT !.polled = FALSE] /\ UNCHANGED atag
 
 TStart ==
